@@ -1,5 +1,11 @@
 package main
 
 func dispatchMore(cmd string, r *prng, count int, extra string) bool {
-	return false
+	switch cmd {
+	case "codec":
+		runCodec(r, count)
+	default:
+		return false
+	}
+	return true
 }
